@@ -505,12 +505,18 @@ def r6_merge_and_probe(ctx):
     ctx.check('R6.merge', f'{site(agg)} every OMS of the path', ok, key(agg, 'all-oms'),
               'the aggregate does not merge the bitmap of every OMS of the path after the first')
     cnm = repo.func(MOD, 'compute_n_m')
+    from ..pattern import mexpr
     arms = [n for n in walk_no_nested(cnm.node) if isinstance(n, ast.If) and 'is not None' in ast.unparse(n.test)]
     fixed = None
+    nv = mv = None
     for n in arms:
-        t = ast.unparse(n.test).replace(' ', '')
-        if t in ('misnotNoneandnisnotNone', 'nisnotNoneandmisnotNone'):
+        lp = enclosing(n, ast.For)
+        b = mexpr('V_a is not None and V_b is not None', n.test)
+        # the slot loop  for n, m in zip(<N list>, <M list>)
+        if b is not None and lp is not None and isinstance(lp.target, ast.Tuple) and len(lp.target.elts) == 2 and \
+                {b['V_a'], b['V_b']} == {e.id for e in lp.target.elts if isinstance(e, ast.Name)}:
             fixed = n
+            nv, mv = lp.target.elts[0].id, lp.target.elts[1].id
     if fixed is None:
         raise CannotAnalyse('compute_n_m: arm for a user-fixed (N, M) not found')
     dc = [c for s in fixed.body for c in ast.walk(s) if isinstance(c, ast.Call) and getattr(c.func, 'id', '') == 'determine_slot_numbers']
@@ -521,8 +527,8 @@ def r6_merge_and_probe(ctx):
         det = ast.unparse(dc[0])
         res = stmt_of(cnm, dc[0]).targets[0].id if isinstance(stmt_of(cnm, dc[0]), ast.Assign) else None
         tests = [ast.unparse(n.test).replace(' ', '') for s in fixed.body for n in ast.walk(s) if isinstance(n, ast.If)]
-        full_step = a[1] == 'n' and a[2] == 'm' and a[3] == 'm'
-        against_m = res is not None and any(t in (f'{res}<m', f'{res}!=m', f'm>{res}', f'{res}<{a[2]}') for t in tests)
+        full_step = a[1] == nv and a[2] == mv and a[3] == mv
+        against_m = res is not None and any(t in (f'{res}<{mv}', f'{res}!={mv}', f'{mv}>{res}', f'{res}<{a[2]}') for t in tests)
         zero_test = res is not None and any(t in (f'{res}==0', f'not{res}') for t in tests)
         ok = (full_step and zero_test) or against_m
         det += f' ; tests {tests}'
